@@ -69,10 +69,10 @@ def check(toks, resp, mode, build):
         return ("ok" if ok else "viol"), "nt_abssub." + spec[0], True, A.spec_text(spec, False)
     if op == "nt":
         sg = (a > 0) - (a < 0)
-        want = "T %d%d%d%d V %d %d <signum %d> <zero> <one> -" % (a == 0, a == P10[p], a > 0, a < 0, abs(a), p, sg)
+        want = "T %d%d%d%d V %d %d <signum %d> <zero> <one> 11" % (a == 0, a == P10[p], a > 0, a < 0, abs(a), p, sg)
         f = resp.raw.split(" ")
         ok = (len(f) == 15 and f[0] == "T" and f[1] == "%d%d%d%d" % (a == 0, a == P10[p], a > 0, a < 0)
-              and f[2:5] == ["V", str(abs(a)), str(p)] and f[5] == "V" and f[8] == "V" and f[11] == "V" and f[14] == "-")
+              and f[2:5] == ["V", str(abs(a)), str(p)] and f[5] == "V" and f[8] == "V" and f[11] == "V" and f[14] == "11")
         if ok:
             # signum, zero() and one(): by value
             ok = (value_eq(int(f[6]), int(f[7]), sg, 0) and int(f[9]) == 0 and value_eq(int(f[12]), int(f[13]), 1, 0)
